@@ -109,6 +109,7 @@ func runChain(r *vk.Run) {
 	execs, replicas, warm, twins, hits, dupsCompared := 0, 0, 0, 0, 0, 0
 	var slow int64
 	var notExec, harness []string
+	longDone, longDeferred := map[string]bool{}, map[string]string{}
 	results := make([]string, len(cases))
 	t0 := time.Now()
 	done := r.RunIsolated(len(cases), vk.IsoOpts{CaseTimeout: time.Duration(r.Pick(240, 600)) * time.Second, MemKB: 8 * 1024 * 1024}, func(i int, raw json.RawMessage, fatal string) {
@@ -172,6 +173,12 @@ func runChain(r *vk.Run) {
 		order.Ops += res.Order.Ops
 		order.Deletes += res.Order.Deletes
 		order.StorageTries += res.Order.StorageTries
+		for _, sg := range res.Order.Long {
+			longDone[sg] = true
+		}
+		for _, sg := range res.Order.Deferred {
+			longDeferred[sg] = res.Name
+		}
 		if res.Order.MaxSegment > order.MaxSegment {
 			order.MaxSegment = res.Order.MaxSegment
 		}
@@ -236,6 +243,17 @@ func runChain(r *vk.Run) {
 	r.Set("order_recorded_deletes", order.Deletes)
 	r.Set("chain_slowest_case_ms", int(slow))
 	r.Set("chain_wall_s", int(time.Since(t0).Seconds()))
+	orphan := 0
+	for sg, name := range longDeferred {
+		if !longDone[sg] {
+			orphan++
+			if orphan == 1 {
+				r.Capped(fmt.Sprintf("order: a long storage-trie sequence of %s was deferred to a one-letter block that did not permute it", name))
+			}
+		}
+	}
+	r.Set("order_long_sequences_permuted", len(longDone))
+	r.Set("order_long_sequences_deferred_to_them", len(longDeferred))
 	if order.Skipped > 0 {
 		r.Capped(fmt.Sprintf("order: %d segments with more than %d updates were not permuted", order.Skipped, maxSegment))
 	}
